@@ -21,7 +21,7 @@ fn build<T: Nums>(ends: &[f64]) -> Piecewise<T> {
         segments: ends
             .iter()
             .enumerate()
-            .map(|(i, &e)| Segment { end: e, poly: T::from_nums(&LANE_ID.iter().map(|v| v * (1.0 + 0.5 * i as f64) - 0.125 * i as f64).collect::<Vec<_>>()) })
+            .map(|(i, &e)| Segment { end: e, poly: T::from_nums(&LANE_ID.iter().map(|v| v * (1.0 + 0.5 * (i % 13) as f64) - 0.125 * (i % 7) as f64).collect::<Vec<_>>()) })
             .collect(),
     }
 }
@@ -44,6 +44,10 @@ fn compare<T: Nums + Evaluate>(what: &str, res: &Piecewise<T>, src_ends: &[f64],
         }
     }
     // value level, both sides of every breakpoint: the piecewise value is the operated piece's own value
+    // (long functions: structure only, the value level adds nothing once every piece and end is bit-identical)
+    if src_ends.len() > 40 {
+        return Ok(());
+    }
     for x in order_alphabet(src_ends) {
         let i = ref_index(src_ends, x);
         let got = res.evaluate(x);
@@ -163,6 +167,27 @@ pub fn check(thorough: bool, _seed: u64) -> Check {
     let sh = Arc::new(sh);
     let n = cs.len();
     let cs2 = cs.clone();
+    // every number of pieces up to 520 (block / strip sizes of chunked implementations depend on size_of::<Segment<T>>())
+    let cs3 = cs.clone();
+    let lens = Phase {
+        name: "every-number-of-pieces",
+        units: n,
+        split: 1,
+        body: Box::new(move |unit, cx| {
+            let c = &cs3[unit];
+            let len = 41 + cx.choose(if thorough { 1040 } else { 480 });
+            let ends: Vec<f64> = (0..len).map(|i| 0.5 + i as f64 * 0.25).collect();
+            let s = if c.scalar { [-2.5, 1.0000000000000002][cx.choose(2)] } else { 0.0 };
+            cx.nontrivial();
+            cx.evals(1);
+            if cx.sampling() {
+                cx.sample(json!({"case": format!("{}: {}", c.ty, c.op), "pieces": len, "scalar": s}));
+            }
+            (c.run)(&ends, s).map_err(|(what, d)| Fail::new(format!("{}: {}", c.ty, what), json!({"pieces": len, "ends": "0.5 + i/4", "scalar": fj(s), "observation": d})))
+        }),
+        classes: vec![],
+        bounds: json!({"cases": "every (piece type, operator group) case", "pieces": if thorough {"every number of pieces from 41 to 1080"} else {"every number of pieces from 41 to 520"}, "scalars": "-2.5 and succ(1)", "comparison": "structure (number of pieces, every end and every number of every piece on bits)"}),
+    };
     let ph = Phase {
         name: "segment-and-piecewise-operators",
         units: n,
@@ -191,7 +216,7 @@ pub fn check(thorough: bool, _seed: u64) -> Check {
         id: "C15",
         rule: "choice tree: (piece type, operator group) unit x shape x scalar; each leaf applies the real Segment/Piecewise operators once and evaluates the result at every x of A(ends); non-trivial = function with >=2 pieces".into(),
         assumptions: vec!["the piece-level operator is the reference (decided separately by C14)".into()],
-        phases: vec![ph],
+        phases: vec![ph, lens],
         extra,
         controls: vec![],
     }
